@@ -2,6 +2,8 @@ use crate::report::Report;
 use crate::Args;
 
 pub mod c10;
+pub mod c11;
+pub mod c12;
 pub mod c19;
 pub mod smoke;
 
@@ -10,6 +12,8 @@ pub fn run(a: &Args) -> Report {
         "smoke" => smoke::run(a),
         "c19" => c19::run(a),
         "c10" => c10::run(a),
+        "c11" => c11::run(a),
+        "c12" => c12::run(a),
         other => {
             let mut r = Report::new(other);
             r.inconclusive(&format!("unknown property {other}"));
